@@ -168,9 +168,20 @@ func (p *Path) lastStoreBefore(ld *ssa.UnOp) ssa.Value {
 	}
 	a, ok := ld.X.(*ssa.Alloc)
 	if !ok {
+		// a captured variable read inside a closure the path stepped into: the same cell
+		if fv, isFV := ld.X.(*ssa.FreeVar); isFV {
+			if c := Cell(fv); c != nil {
+				if cl, confined := confinedCell(c); confined {
+					return p.lastStoreToConfined(c, cl, ld)
+				}
+			}
+		}
 		return nil
 	}
 	if !privateCell(a) {
+		if cl, confined := confinedCell(a); confined {
+			return p.lastStoreToConfined(a, cl, ld)
+		}
 		// a variable shared with a closure: only a store the path made just before the load, with nothing in
 		// between that could run other code (no call, no channel operation)
 		var last ssa.Value
@@ -200,6 +211,112 @@ func (p *Path) lastStoreBefore(ld *ssa.UnOp) ssa.Value {
 		}
 		if st, ok := in.(*ssa.Store); ok && st.Addr == ssa.Value(a) {
 			last = st.Val
+		}
+	}
+	return nil
+}
+
+// confinedCell: a local variable that closures capture, but whose address goes
+// nowhere else, and whose capturing closures are only ever called in place
+// (`f := func(){…}; …; f()` — never started as a goroutine, deferred, stored,
+// returned or handed to another function; the same for closures nested in
+// them). Such a variable can be written by nothing but the stores of its
+// function and the stores of those closures while they are being called: no
+// other call, channel operation or goroutine can reach it. It returns the
+// capturing closures.
+func confinedCell(a *ssa.Alloc) (map[*ssa.MakeClosure]bool, bool) {
+	if v, ok := confinedCellCache[a]; ok {
+		return v, v != nil
+	}
+	closures := map[*ssa.MakeClosure]bool{}
+	var okAddr func(addr ssa.Value, depth int) bool
+	okAddr = func(addr ssa.Value, depth int) bool {
+		refs := addr.Referrers()
+		if refs == nil || depth > 4 {
+			return false
+		}
+		for _, r := range *refs {
+			switch x := r.(type) {
+			case *ssa.Store:
+				if x.Addr != addr {
+					return false // the address itself is stored somewhere
+				}
+			case *ssa.UnOp:
+				if x.Op != token.MUL {
+					return false
+				}
+			case *ssa.DebugRef:
+			case *ssa.MakeClosure:
+				uses := x.Referrers()
+				if uses == nil {
+					return false
+				}
+				for _, u := range *uses {
+					switch c := u.(type) {
+					case *ssa.Call:
+						if c.Call.Value != ssa.Value(x) {
+							return false
+						}
+						for _, arg := range c.Call.Args {
+							if arg == ssa.Value(x) {
+								return false
+							}
+						}
+					case *ssa.DebugRef:
+					default:
+						return false // go, defer, stored, captured by another closure, returned
+					}
+				}
+				closures[x] = true
+				fn, isFn := x.Fn.(*ssa.Function)
+				if !isFn {
+					return false
+				}
+				for j, b := range x.Bindings {
+					if b == addr && (j >= len(fn.FreeVars) || !okAddr(fn.FreeVars[j], depth+1)) {
+						return false
+					}
+				}
+			default:
+				return false
+			}
+		}
+		return true
+	}
+	if !okAddr(a, 0) || len(closures) == 0 {
+		confinedCellCache[a] = nil
+		return nil, false
+	}
+	confinedCellCache[a] = closures
+	return closures, true
+}
+
+var confinedCellCache = map[*ssa.Alloc]map[*ssa.MakeClosure]bool{}
+
+// lastStoreToConfined: the value the path last stored into a confined cell
+// (see confinedCell) before the load ld: a store of the declaring function, or
+// a store of a capturing closure whose call the path stepped into (its
+// instructions are on the path). A call of a capturing closure that the path
+// did not step into may have written the cell: nothing is known after it.
+func (p *Path) lastStoreToConfined(a *ssa.Alloc, closures map[*ssa.MakeClosure]bool, ld *ssa.UnOp) ssa.Value {
+	var last ssa.Value
+	for _, in := range p.Instrs {
+		if in == ssa.Instruction(ld) {
+			return last
+		}
+		switch x := in.(type) {
+		case *ssa.Store:
+			if x.Addr == ssa.Value(a) {
+				last = x.Val
+			} else if fv, isFV := x.Addr.(*ssa.FreeVar); isFV && Cell(fv) == a {
+				last = x.Val
+			}
+		case *ssa.Call:
+			if mc := closureOf(x.Call.Value); mc != nil && closures[mc] {
+				if _, steppedInto := p.rets[x]; !steppedInto {
+					last = nil
+				}
+			}
 		}
 	}
 	return nil
